@@ -133,18 +133,22 @@ pub fn c06() -> i32 {
     // ---- pauses of every length
     {
         let mut scns = Vec::new();
-        let topos: &[&str] = if t { &["1+1", "2+1", "1+1+1"] } else { &["1+1", "2+1"] };
+        let topos: &[&str] = if t { &["1+1", "2+1", "1+1+1", "2+2"] } else { &["1+1", "2+1", "2+2"] };
         for tp in topos {
             for (catchup, max_behind) in [(1usize, 10usize), (2, 3), (5, 1), (70, 59), (5, 10)] {
-                if !t && *tp == "2+1" && catchup != 5 {
+                if !t && *tp != "1+1" && catchup != 5 {
                     continue;
                 }
-                let lens: Vec<i32> = if t { (1..=75).collect() } else { vec![1, 2, 5, 11, 12, 30, 57, 58, 59, 60, 61, 62, 63, 75] };
+                let lens: Vec<i32> = if t { (1..=75).collect() } else if *tp == "2+2" { (20..=62).collect() } else { vec![1, 2, 5, 11, 12, 30, 57, 58, 59, 60, 61, 62, 63, 75] };
                 let starts: Vec<i32> = if t { vec![3, 8, 40] } else { vec![3] };
                 for &len in &lens {
                     for &start in &starts {
                       for polls in [false, true] {
                         let mut s = spec_scn("c06-pause", tp, if *tp == "2+1" { 2 } else { 8 }, 0, *tp == "2+1", catchup, max_behind, t && *tp == "1+1");
+                        if *tp == "2+2" {
+                            // a spectator endpoint with a wide window keeps long bursts decodable
+                            s.specs[0].window = 30;
+                        }
                         s.specs[0].pauses = vec![(start, len)];
                         s.specs[0].pause_polls = polls;
                         s.name = format!("{} pause start={start} len={len} polls-while-paused={polls}", s.name);
@@ -228,10 +232,13 @@ pub fn c06() -> i32 {
     // ---- outages on the host<->spectator link and host-side deaths
     {
         let mut scns = Vec::new();
-        for (catchup, max_behind) in [(1usize, 10usize), (5, 2)] {
-            for len in 1..=(if t { 70 } else { 30 }) {
+        for (catchup, max_behind, tp) in [(1usize, 10usize, "1+1"), (5, 2, "1+1"), (3, 4, "2+2"), (70, 2, "1+1+1")] {
+            for len in 1..=(if t { 70 } else if tp == "1+1" { 30 } else { 59 }) {
                 for dir in 0..3 {
-                    let mut s = spec_scn("c06-outage", "1+1", 2, 0, false, catchup, max_behind, false);
+                    if !t && tp != "1+1" && dir == 1 {
+                        continue;
+                    }
+                    let mut s = spec_scn("c06-outage", tp, if tp == "1+1" { 2 } else { 8 }, 0, false, catchup, max_behind, false);
                     let a = s.peers[0].addr;
                     if dir != 1 {
                         s.outages.push(Outage { from: a, to: 20, start: 4, len, classes: CLASS_ALL });
